@@ -4,8 +4,8 @@
    lengths, and the containment logic at the boundaries (see docs/C17.md for what is
    modelled and what is only exercised by the campaign). *)
 From Coq Require Import ZArith List Bool.
-From BV Require Import Model.HostileAt Model.HostileFields Model.HostileSdp Model.HostileHost.
-From BV Require Import Proofs.HostileAt Proofs.HostileFields Proofs.HostileSdp Proofs.HostileHost.
+From BV Require Import Model.HostileAt Model.HostileFields Model.HostileSdp Model.HostileHost Model.HostileRfcomm.
+From BV Require Import Proofs.HostileAt Proofs.HostileFields Proofs.HostileSdp Proofs.HostileHost Proofs.HostileRfcomm.
 From BV Require Import Gen.C17Tables.
 Import ListNotations.
 Open Scope Z_scope.
@@ -166,6 +166,30 @@ Theorem C17_sdp_nesting_limit : forall strict data f off depth hd vsize szlen,
 Proof. intros strict data. exact (nesting_limit strict sdp_max_nesting data). Qed.
 Print Assumptions C17_sdp_nesting_limit.
 
+(* ------------------------------------------------------------------ rfcomm.DLC.process_tx *)
+(* The frame size is negotiated by the peer and stored unvalidated (0 and negative values
+   included).  As the code is - a tx credit is spent for every data frame attempted - the
+   loop never exhausts fuel credits + 2, sends at most credits + 1 frames and never drives
+   the credits negative, for every mtu, buffer length and pending rx-credit grant. *)
+Theorem C17_rfcomm_process_tx_terminates : forall mtu buf credits rxn,
+  0 <= credits -> process_tx true (process_tx_fuel credits) mtu buf credits rxn <> None.
+Proof. exact process_tx_terminates. Qed.
+Print Assumptions C17_rfcomm_process_tx_terminates.
+
+Theorem C17_rfcomm_process_tx_bounded : forall fuel mtu buf credits rxn st frames,
+  0 <= credits -> process_tx true fuel mtu buf credits rxn = Some (st, frames) ->
+  Z.of_nat (length frames) <= credits + (if 0 <? rxn then 1 else 0) /\ 0 <= t_credits st <= credits.
+Proof. exact process_tx_bounds. Qed.
+Print Assumptions C17_rfcomm_process_tx_bounded.
+
+(* The guard matters: if a credit were spent only for a non-empty payload (seeded change
+   C17-a), then for mtu <= 0, data buffered and a credit available no fuel is ever enough. *)
+Theorem C17_rfcomm_payload_rule_refuted : forall fuel mtu buf credits,
+  mtu <= 0 -> 0 < buf -> 0 < credits -> take mtu buf = 0 ->
+  process_tx false fuel mtu buf credits 0 = None.
+Proof. exact process_tx_payload_rule_refuted. Qed.
+Print Assumptions C17_rfcomm_payload_rule_refuted.
+
 (* ------------------------------------------------------------------ Host.on_packet *)
 Theorem C17_host_undecodable_contained : forall st p,
   hci_from_bytes p = HErr -> host_on_packet st p = (st, [OParseError]).
@@ -229,6 +253,11 @@ Example C17_unknown_signalling_code_rejected :
   on_signalling_pdu unit (fun _ _ _ s => (s, [], false)) sig_classes sig_handled tt [200; 7; 0; 0]
   = (tt, [[1; 7; 2; 0; 0; 0]], SigRejected).
 Proof. vm_compute. reflexivity. Qed.
+
+Example C17_process_tx_mtu_zero :
+  process_tx true (process_tx_fuel 7) 0 10 7 0 = Some (mkTx 10 0, [(0, false); (0, false); (0, false); (0, false); (0, false); (0, false); (0, false)]) /\
+  process_tx false 1000 0 10 7 0 = None.
+Proof. vm_compute. split; reflexivity. Qed.
 
 Example C17_att_read_request_too_short :
   att_from_bytes att_classes [10; 3] = PErr EStruct /\
